@@ -20,7 +20,7 @@ func init() {
 		ID:         "C16",
 		Title:      "Bits / Bitmap / dsz.Bits behave as sets of unsigned integers, incl. bulk operations",
 		Quick:      20000,
-		Thorough:   800000,
+		Thorough:   560000,
 		Gen:        gen,
 		Corpus:     corpus,
 		Impl:       impl,
@@ -31,7 +31,7 @@ func init() {
 			"non-trivial = at least one bulk operation, or an enumeration (iterator / Range / All) that crosses a word boundary, in a sequence of ≥ 6 ops; distinct by hash of the op list",
 		Classify: classify,
 		Parallel: true,
-		Extras:   []core.Extra{{Name: "parallel-objects", Run: extraParallel}, {Name: "huge-bitmaps", Run: extraHuge}},
+		Extras:   []core.Extra{{Name: "parallel-objects", Run: extraParallel}, {Name: "huge-bitmaps", Run: extraHuge}, {Name: "onescount", Run: extraOnesCount}},
 		Assumptions: []string{
 			"math/bits.OnesCount64 = number of set bits (modelled as popcount)",
 			"Go int treated as unbounded (word counts far below 2^57)",
